@@ -254,6 +254,10 @@ def approx_step(x):
     return 3600
 
 
+def case_hash_small(text):
+    return sum(ord(c) for c in text) + len(text)
+
+
 def run_case(case, ctx):
     from edzed import utils
     kind = case['kind']
@@ -268,6 +272,28 @@ def run_case(case, ctx):
                 else:
                     raise core.Violation(
                         'malformed-accepted', f"{name}({s!r}) returned {val!r} instead of raising")
+            if isinstance(s, str) and case_hash_small(s) % 4 == 0:
+                # ... and wherever a block takes a duration, used by the block or not
+                import edzed
+                edzed.reset_circuit()
+                for what, mk in (
+                        ('Input(expiration=...)', lambda: edzed.Input(None, initdef=0, expiration=s)),
+                        ('Input(persistent=True, expiration=...)',
+                         lambda: edzed.Input(None, initdef=0, persistent=True, expiration=s)),
+                        ('Timer(t_on=...)', lambda: edzed.Timer(None, t_on=s)),
+                        ('InputExp(duration=...)', lambda: edzed.InputExp(None, duration=s)),
+                        ('Repeat(interval=...)',
+                         lambda: edzed.Repeat(None, dest='x', etype='e', interval=s))):
+                    ctx.count('malformed_block_arguments')
+                    try:
+                        mk()
+                    except Exception:
+                        pass
+                    else:
+                        raise core.Violation(
+                            'malformed-accepted', f"{what} with the malformed duration {s!r} "
+                            "was accepted")
+                edzed.reset_circuit()
             ctx.case_done(case, True, {'malformed': case['s'], 'outcome': 'rejected'})
             return
         if kind == 'convert':
